@@ -199,3 +199,19 @@ func init() {
 	addMutant(Mutant{Name: "c27-runtime-reads-node", Property: "C27", File: "util/yang.go",
 		Old: "func IsConfig(e *yang.Entry) bool {\n\treturn !e.ReadOnly()", New: "func IsConfig(e *yang.Entry) bool {\n\tif e.Node != nil && e.Node.Kind() == \"notification\" {\n\t\treturn false\n\t}\n\treturn !e.ReadOnly()", Expect: "util.IsConfig:entry-fields"})
 }
+
+func init() {
+	// C26
+	addMutant(Mutant{Name: "c26-ordered-by-yang", Property: "C26", File: "gogen/gogen.go",
+		Old: "\t\t\tif orderedMapSpec != nil {\n\t\t\t\tassociatedOrderedMapStructs = append(associatedOrderedMapStructs, orderedMapSpec)\n\t\t\t\tassociatedDefaultMethod.ChildOrderedListNames", New: "\t\t\tif orderedMapSpec != nil {\n\t\t\t\tassociatedOrderedMapStructs = append(associatedOrderedMapStructs, orderedMapSpec)\n\t\t\t}\n\t\t\tif field.YANGDetails.OrderedByUser {\n\t\t\t\tassociatedDefaultMethod.ChildOrderedListNames", Expect: "list:ordered-choice"})
+	addMutant(Mutant{Name: "c26-root-leaflists-dropped", Property: "C26", File: "ygen/codegen.go",
+		Old: "\t\tif l.IsLeaf() || l.IsLeafList() {\n\t\t\tfakeRoot.Dir[l.Name] = l\n\t\t}", New: "\t\tif l.Kind != yang.LeafEntry || l.ListAttr != nil {\n\t\t\tcontinue\n\t\t}\n\t\tfakeRoot.Dir[l.Name] = l", Expect: "root-leaves-and-leaf-lists"})
+	addMutant(Mutant{Name: "c26-getter-wrong-type", Property: "C26", File: "gogen/gogen.go",
+		Old: "\tt.{{ .Field.Name }} = &{{ stripAsteriskPrefix .Field.Type }}{}\n", New: "\tt.{{ .Field.Name }} = {{ stripAsteriskPrefix .Field.Type }}{}\n", Expect: "compiles"})
+	addMutant(Mutant{Name: "c26-struct-names-not-unique", Property: "C26", File: "gogen/goelements.go",
+		Old: "uniqName := genutil.MakeNameUnique(pathToCamelCaseName(e, compressBehaviour.CompressEnabled()), s.definedGlobals)", New: "uniqName := pathToCamelCaseName(e, compressBehaviour.CompressEnabled())\n\ts.definedGlobals[uniqName] = true", Expect: "DirectoryName:unique"})
+	addMutant(Mutant{Name: "c26-leaflist-not-slice", Property: "C26", File: "gogen/gogen.go",
+		Old: "\t\t\t\tfType = fmt.Sprintf(\"[]%s\", fType)\n", New: "\t\t\t\tfType = fmt.Sprintf(\"*%s\", fType)\n", Expect: "leaf-list:type"})
+	addMutant(Mutant{Name: "c26-validate-missing-opts", Property: "C26", File: "gogen/gogen.go",
+		Old: "func (t *{{ .StructName }}) ΛValidate(opts ...ygot.ValidationOption) error {", New: "func (t *{{ .StructName }}) ΛValidate() error {\n\tvar opts []ygot.ValidationOption", Expect: "compiles"})
+}
